@@ -71,6 +71,12 @@ fn parse_report_statement(ctx: &mut ParsingContext<'_>) -> ParseResult<ReportSta
 pub fn parse_labeled_sequential_statements(
     ctx: &mut ParsingContext<'_>,
 ) -> ParseResult<Vec<LabeledSequentialStatement>> {
+    ctx.nested(_parse_labeled_sequential_statements)
+}
+
+fn _parse_labeled_sequential_statements(
+    ctx: &mut ParsingContext<'_>,
+) -> ParseResult<Vec<LabeledSequentialStatement>> {
     let mut statements = Vec::new();
     loop {
         let token = ctx.stream.peek_expect()?;
